@@ -27,7 +27,7 @@ fi
 if [ $rc -ne 0 ]; then echo "MIRI: worker exited with $rc"; tail -20 target/miri-c10/err.txt; exit 1; fi
 n_cases=$(wc -l < target/miri-c10/cases.txt); n_impl=$(wc -l < target/miri-c10/impl.txt)
 [ "$n_cases" = "$n_impl" ] || { echo "MIRI: $n_impl replies for $n_cases histories"; exit 1; }
-bad=$(paste -d'\n' target/miri-c10/model.txt target/miri-c10/impl.txt | awk 'NR%2==1{m=$0} NR%2==0{split($0,a," #oracle:"); split(a[2],c," "); if (a[1]!=m || (a[2]!="" && c[1]!="slice-empty-detaches")) n++} END{print n+0}')
+bad=$(paste -d'\n' target/miri-c10/model.txt target/miri-c10/impl.txt | awk 'NR%2==1{m=$0} NR%2==0{split($0,a," #oracle:"); split(a[2],c," "); if (a[1]!=m || a[2]!="") n++} END{print n+0}')
 [ "$bad" = "0" ] || { echo "MIRI: $bad histories differ from the Model or fail an oracle under Miri"; exit 1; }
 echo "MIRI: $n_cases reader histories x 6 reader kinds executed under Miri: no undefined behaviour, all replies equal the Model's"
 exit 0
